@@ -3,7 +3,7 @@ CONSTANTS
   Apis = {"query"}
   Nests = {"none"}
   Kinds = {"ok", "servfail", "refused"}
-  Faults = {"sendto"}
+  Faults = {"sendto", "connect"}
   Extras = {"timeout", "setservers"}
   MaxReq = 3
   MaxLen = 5
